@@ -155,6 +155,8 @@ class Reader:
                     )
                 self.meta["fileTimeSecs"] = ftsec
         else:
+            # the file may have changed since the reader was instantiated (open=False)
+            self.nbytes = self.file_bin.stat().st_size
             if self.nc * self.ns * self.dtype.itemsize != self.nbytes:
                 # only complete sample frames count: an incomplete trailing frame is not exposed
                 ftsec = (
